@@ -1,10 +1,13 @@
 pub mod c01;
+pub mod c02;
+pub mod c03;
 pub mod c04;
 pub mod c05;
 pub mod c08;
 pub mod c09;
 pub mod c12;
 pub mod c13;
+pub mod c15;
 pub mod c17;
 
 use crate::core::{Prop, Tier};
